@@ -130,8 +130,8 @@ func (c *FnCtx) resolveGoFunc(fun Expr, env *Env) (*types.Func, *TV, error) {
 	case *ESel:
 		if id, ok := x.X.(*EIdent); ok {
 			if _, bound := env.vars[id.Name]; !bound {
-				for _, imp := range env.pkg().Imports() {
-					if imp.Name() == id.Name {
+				for _, imp := range []*types.Package{c.g.lookupImport(env.pkg(), id.Name)} {
+					if imp != nil {
 						if f, ok := imp.Scope().Lookup(x.Name).(*types.Func); ok {
 							return f, nil, nil
 						}
